@@ -212,10 +212,13 @@ fn real_sample(ctx: &Ctx, tree: &Tree, cases: &[Case], idx: usize) {
         let _ = std::fs::remove_dir_all(&dir);
         return;
     }
-    let mut script = String::new();
+    // (the descriptors open before and after all the expansions: reading directories must
+    // not leave any behind)
+    let mut script = String::from("lsfd fds\n");
     for c in cases {
         script.push_str(&format!("echo {}\n", c.text));
     }
+    script.push_str("lsfd fds\n");
     let exe = std::env::current_exe().unwrap();
     let out = std::process::Command::new(exe)
         .args(["real-shell", "-c", &script])
@@ -230,7 +233,22 @@ fn real_sample(ctx: &Ctx, tree: &Tree, cases: &[Case], idx: usize) {
         return;
     };
     let text = String::from_utf8_lossy(&out.stdout);
-    let lines: Vec<&str> = text.lines().collect();
+    let mut lines: Vec<&str> = text.lines().collect();
+    if lines.len() >= 2 && lines[0].starts_with("fds: ") && lines[lines.len() - 1].starts_with("fds: ") {
+        let (first, last) = (lines[0], lines[lines.len() - 1]);
+        ctx.count("real_system_descriptor_comparisons", 1);
+        if first != last {
+            ctx.violation(
+                "real:descriptors-left-open",
+                format!("real system: open descriptors before the {} pathname expansions `{first}`, after `{last}`\nscript:\n{script}", cases.len()),
+            );
+        }
+        lines.remove(0);
+        lines.pop();
+    } else {
+        ctx.violation("real:line-count", format!("real system: descriptor listings missing\nstdout: {text}\nstderr: {}", String::from_utf8_lossy(&out.stderr)));
+        return;
+    }
     ctx.evals(cases.len());
     ctx.count("real_system_patterns", cases.len() as i64);
     if lines.len() != cases.len() {
